@@ -82,7 +82,8 @@ def ppcParks : PPC → Bool
 def qDigest (s : St) (q : QId) : String :=
   let Q := s.qs q
   let inmap := decide (s.map Q.key = some q)
-  s!"refs={Q.refs} ch={(s.chans Q.ch).length} ovf={Q.ovf.length} mode={boolStr Q.ovfMode} inmap={boolStr inmap}"
+  let refs := if Q.refs < 0 then "claimed" else toString Q.refs
+  s!"refs={refs} ch={(s.chans Q.ch).length} ovf={Q.ovf.length} mode={boolStr Q.ovfMode} inmap={boolStr inmap}"
 
 def prodLine (s : St) (p : PId) : String :=
   let pc := (s.prods p).pc
